@@ -61,6 +61,7 @@ CONFIGS = {
     'logging': {'evalmon': 'Monitor', 'stepmon': 'Logging'},
     'verbose': {'evalmon': 'Monitor', 'stepmon': 'Verbose'},
     'logging_eval': {'evalmon': 'Logging', 'stepmon': 'Monitor'},
+    'logging_k': {'evalmon': 'Monitor*2', 'stepmon': 'Logging*-1', 'term': 'cog'},     # monitors with a cost multiplier; the termination reads the scaled history
     'limit_gen': {'limits': [4, None], 'term': 'cog'},
     'limit_eval': {'limits': [None, 12], 'term': 'default'},
     'symbolic': {'box': 'unit', 'constraint': 'symbolic'},
@@ -76,7 +77,7 @@ CONFIGS = {
 MAP_CONFIGS = ('map', 'map_limit_eval', 'map_box_monitors')
 QUICK_PLAN = [('plain', 'sphere'), ('plain', 'rosen'), ('box_con_pen', 'steps'),
               ('tight', 'sphere'), ('clip', 'sphere'), ('clip_random', 'sphere'),
-              ('monitors', 'sphere'), ('logging', 'sphere'), ('limit_gen', 'sphere'), ('limit_eval', 'sphere'),
+              ('monitors', 'sphere'), ('logging', 'sphere'), ('logging_k', 'sphere'), ('limit_gen', 'sphere'), ('limit_eval', 'sphere'),
               ('reconf_pen_mon', 'sphere'), ('reconf_box_lim', 'sphere')]
 THOROUGH_COSTS = ['sphere', 'steps', 'rosen', 'absum', 'infwall']
 THOROUGH_CORE = ('plain', 'box_con_pen', 'monitors', 'limit_gen')     # 5 / 5 / 3 / 3 costs, all 7 double chains; the rest: 1-2 costs, 3 chains
@@ -132,6 +133,10 @@ def make_cfg(solver, confname, cost, dim, seed):
            'instrument': False, 'horizon': 60000}
     extra = CONFIGS[confname]
     cfg.update(extra)
+    if confname == 'logging_k' and solver == 'Powell':
+        # Powell hands its generation monitor a 0-d array, which a monitor with a multiplier cannot scale (TypeError in
+        # _imultiply; outside this property) - for Powell the multiplier monitors swap roles
+        cfg.update(evalmon='Logging*-1', stepmon='Monitor')
     if cost in STARTS:
         cfg['x0'] = STARTS[cost][dim]
     elif 'box' in extra:
@@ -999,7 +1004,7 @@ def _shard(item):
             run_single(b, k, plan['single'], T)
             if cfg.get('limits') is not None:
                 run_solve(b, k, ['SaveSolver/LoadSolver', 'dill.dumps/dill.loads', 'dill.copy'], T)
-            if 'Logging' in (cfg.get('stepmon'), cfg.get('evalmon')) and k > 0:
+            if any(str(cfg.get(m) or '').startswith('Logging') for m in ('stepmon', 'evalmon')) and k > 0:
                 run_logfile(b, k, ['SaveSolver/LoadSolver', 'dill.dumps/dill.loads'], T)
         for f in (sorted(plan['periodic']) if not b.midrun else ()):      # (periodic dumps are exercised on unreconfigured runs)
             run_periodic(b, f, plan['periodic'][f], T)
